@@ -510,7 +510,9 @@ type c15gen struct {
 
 type c15release struct {
 	kind, id  string
+	inst      *c15inst
 	callStamp int64
+	doneStamp int64 // stamp after Release returned (never, if the task was unwound by a crash)
 }
 
 // c15irel: GenerateUnique* released a candidate it had marked because the
@@ -749,9 +751,14 @@ func c15RunIDGen(w *simrt.World, tier string) {
 							continue
 						}
 						mu.Lock()
-						rels = append(rels, c15release{kind: x.kind, id: x.id, callStamp: w.Stamp()})
+						rels = append(rels, c15release{kind: x.kind, id: x.id, inst: p.inst, callStamp: w.Stamp(), doneStamp: c15never})
+						ri := len(rels) - 1
 						mu.Unlock()
-						if err := p.inst.rel(x.kind, x.id); err != nil {
+						err := p.inst.rel(x.kind, x.id)
+						mu.Lock()
+						rels[ri].doneStamp = w.Stamp()
+						mu.Unlock()
+						if err != nil {
 							w.Probe("release.error")
 						} else {
 							w.Probe("release.ok")
@@ -860,6 +867,12 @@ func c15RunIDGen(w *simrt.World, tier string) {
 				}
 			}
 			expired := g1.ttl > 0 && g2.retTime >= g1.callTime+g1.ttl
+			// a claim whose answer travels slowly is processed by the store somewhere between invoke and
+			// return: the later-returning generation may have marked FIRST and its marker may have lapsed
+			// before the other one marked (conservative in the same way, with the roles swapped)
+			if !g2.pre && g2.ttl > 0 && g1.retTime >= g2.callTime+g2.ttl {
+				expired = true
+			}
 			if released {
 				w.Probe("reissue.after-release")
 				continue
@@ -898,9 +911,34 @@ func c15RunIDGen(w *simrt.World, tier string) {
 					}
 					// ... or another instance's GenerateUnique* marked the same candidate concurrently with g1
 					// and then released "its" marker (which is also g1's) because the check said taken.
+					// lateDel: a Delete of this id's marker issued at or after stamp s whose execution (the store is
+					// instrumented at statement granularity) can have landed after g1 began
+					lateDel := func(s int64) bool {
+						cl.dels.mu.Lock()
+						defer cl.dels.mu.Unlock()
+						for _, d := range cl.dels.recs {
+							if d.key == c15MarkerKey(g1.kind, g1.id) && d.start >= s && d.end > g1.callStamp && d.start < g2.retStamp {
+								return true
+							}
+						}
+						return false
+					}
+					// ... or the Release of an earlier holder on ANOTHER instance, invoked before g1 returned (so it
+					// does not excuse the pair), was still in flight and removed g1's marker: that holder and an
+					// even earlier one shared the id through the cross-instance race, and the stale delete by key
+					// is its consequence.
+					if rel == "same-instance" {
+						for _, r := range rels {
+							if r.kind+"/"+r.id == k && r.inst != g1.inst && r.callStamp < g2.retStamp && r.doneStamp > g1.callStamp && lateDel(r.callStamp) {
+								rel = relOfInst(r.inst, g1.inst)
+								hist = "(the Release invoked on " + r.inst.name + " at stamp " + strconv.FormatInt(r.callStamp, 10) + " was still in flight when g1 marked the id; its delete removed g1's marker)\n" + hist
+								break
+							}
+						}
+					}
 					if rel == "same-instance" {
 						for _, r := range irels {
-							if r.kind+"/"+r.id == k && r.inst != g1.inst && r.stamp > g1.callStamp && r.stamp < g2.retStamp {
+							if r.kind+"/"+r.id == k && r.inst != g1.inst && r.stamp < g2.retStamp && (r.stamp > g1.callStamp || lateDel(r.stamp)) {
 								rel = relOfInst(r.inst, g1.inst)
 								hist = "(GenerateUnique on " + r.inst.name + " marked the same candidate concurrently with g1 and released the shared marker at stamp " + strconv.FormatInt(r.stamp, 10) + ")\n" + hist
 								break
